@@ -4,6 +4,7 @@
   M6   handlers.WebhookHandler.operation (deprecated accessor)                                  C18
 """
 import asyncio
+import collections.abc
 import itertools
 
 from pyvc import *
@@ -449,11 +450,33 @@ def _callback(value, *a, **kw):
     return True
 
 
+class _Labels(collections.abc.Mapping):
+    """A Mapping[str, criterion] with symbolic keys (an association list with pairwise distinct keys; dict semantics
+    for iteration order, emptiness and lookup)."""
+    def __init__(self):
+        self.pairs = []
+
+    def __iter__(self):
+        return iter([k for k, _ in self.pairs])
+
+    def __len__(self):
+        return len(self.pairs)
+
+    def __getitem__(self, key):
+        for k, v in self.pairs:
+            if k is key or bool(Eq(k, key)):
+                return v
+        raise KeyError(key)
+
+    def items(self):
+        return list(self.pairs)
+
+
 def _m3_labels(vc):
     """_build_labels_selector over None / {} / 1..3 criteria with symbolic keys and every kind of criterion."""
     PRESENT, ABSENT = filters.MetaFilterToken.PRESENT, filters.MetaFilterToken.ABSENT
     n = vc.nondet(5, 'labels: None / {} / 1..3 criteria')
-    labels, spec = (None if n == 0 else {}), []
+    labels, spec = (None if n == 0 else _Labels()), []
     for i in range(max(0, n - 1)):
         key = vc.str(f'key{i}')
         for k in labels:
@@ -470,11 +493,12 @@ def _m3_labels(vc):
             spec.append((key, 'DoesNotExist', None))
         else:
             val = _callback if vc.nondet(2, 'callback: function / lambda') == 0 else (lambda value, **_: False)
-        labels[key] = val
+        labels.pairs.append((key, val))
     ld = vc.load('kopf._core.engines.admission', '_build_labels_selector')
-    snapshot = None if labels is None else dict(labels)
+    snapshot = None if labels is None else list(labels.pairs)
     got = ld.fn(labels)
-    vc.ensure('labels.input_untouched', labels is None or (list(labels) == list(snapshot) and all(labels[k] is snapshot[k] for k in labels)))
+    vc.ensure('labels.input_untouched', labels is None or (len(labels.pairs) == len(snapshot)
+                                                           and all(a[0] is b[0] and a[1] is b[1] for a, b in zip(labels.pairs, snapshot))))
     vc.ensure('labels.none_when_nothing_expressible', (got is None) == (not spec))
     vc.canary('canary.always_selector', got is not None)
     if got is None:
